@@ -94,6 +94,26 @@ def outcome(load, text):
 
 
 def check(case, ctx):
+    from yv import fuzzphase
+    if fuzzphase.note_stats(case, ctx):
+        return
+    if 'fuzz' in case:
+        # artifact of the fuzz target: raw text that uses anchors/aliases
+        text = case['text']
+        spec = fuzzphase.model_of(case)
+        try:
+            node = T.compose_raw(text)
+            if node is None:
+                return
+            _, depth, shared, cyc = T.node_stats(node)
+        except Exception:
+            return
+        if cyc:
+            return check({'model': spec, 'cyclic': text}, ctx)
+        if not shared or depth > 20:
+            return
+        case = {'model': spec, 'aliased_text': text,
+                'info': [{'kind': 'q', 'from': [0], 'to': [1], 'mode': 'fuzz'}], 'src': 'fuzz'}
     spec = case['model']
     m = models.build(spec)
     load = m.load
@@ -121,12 +141,21 @@ def check(case, ctx):
                         'self-referential document raised %s instead of RecognitionError/YAMLError\n  text: %r\n  model: %s'
                         % (o[1], text, spec))
         return
-    t = case['doc']
-    if '*' not in repr(t):
-        ctx.count('no_alias_introduced')
-        return
-    a_text = T.render_flow(t)
-    e_text = T.render_flow(expand(t))
+    if 'aliased_text' in case:
+        a_text = case['aliased_text']
+        try:
+            e_text = yaml.serialize(T.copy_nodes(T.compose_raw(a_text), share=False),
+                                    Dumper=T._style_dumper(), allow_unicode=True)
+        except Exception:
+            ctx.count('precondition_unparseable')
+            return
+    else:
+        t = case['doc']
+        if '*' not in repr(t):
+            ctx.count('no_alias_introduced')
+            return
+        a_text = T.render_flow(t)
+        e_text = T.render_flow(expand(t))
     try:
         na, ne = T.compose_raw(a_text), T.compose_raw(e_text)
         if T.plain(na) != T.plain(ne):
@@ -170,4 +199,8 @@ def check(case, ctx):
 
 def phases(tier):
     n = 250 if tier != 'thorough' else 4000
-    return [HypPhase('models_x_aliased_documents', cases(), n)]
+    ph = [HypPhase('models_x_aliased_documents', cases(), n)]
+    if tier == 'thorough':
+        from yv import fuzzphase
+        ph.append(fuzzphase.fuzz_phase('C18', 200000))
+    return ph
